@@ -146,7 +146,11 @@ def run(ctx):
       rule = 'ORD/traversal' if s.kind == 'traversal' else 'ORD/positional'
       if reasons:
         ctx.ob(rule, fi, s.stmt if s.kind == 'traversal' else s.node, False,
-               '; '.join(reasons) + ' [provenance: storage order of %s]' % s.prov.detail, construct=s.what, unknown=ordr.undecided_reason(s, reasons))
+               '; '.join(reasons) + ' [provenance: storage order of %s]' % s.prov.detail, construct=s.what, unknown=ordr.undecided_reason(s, reasons),
+               # a positional read of storage-ordered data is a finding of the order analysis itself; only the reads that the
+               # allow-list may discharge by looking at their context (<seq>.time_signatures[0], <seq>.tempos[0]) depend on arrangement
+               definite=(s.kind == 'positional' and isinstance(s.node, ast.Subscript) and
+                         not norm_text(s.node.value).endswith(('.time_signatures', '.tempos'))))
       else:
         ctx.ob(rule, fi, s.stmt if s.kind == 'traversal' else s.node, True,
                why_ok or ('storage-order traversal of %s with an order-insensitive body' % s.prov.detail
